@@ -23,7 +23,7 @@ namespace avel {
         //=================================================
 
         explicit Denominator(std::int64_t d):
-            Denominator(d, avel::max(bit_width(abs(d) - 1l), std::int64_t(1))) {}
+            Denominator(d, avel::max(std::int64_t(bit_width(std::uint64_t(abs(d)) - 1)), std::int64_t(1))) {}
 
     private:
 
